@@ -1,11 +1,15 @@
 (* C06 -- proofs over the entry classification (model/NoPanic.v) and over the Panic outcomes of
    the subsystem models (Signer, PreconfBidder, BidderApi, PreconfProvider, Handshake). *)
 From Coq Require Import String List NArith ZArith Bool Lia.
-From MevVerif Require Import lib.Bytes model.NoPanic.
+From MevVerif Require Import lib.Bytes gen.Generated model.NoPanic.
 Import ListNotations.
 Open Scope N_scope.
 
 (* ---- the classification: nothing panics on the tree as it is now --------------------------------- *)
+
+(* the wiring fact read from libp2p.New on this run *)
+Lemma metrics_created : metrics_always_created = true.
+Proof. reflexivity. Qed.
 
 Lemma eip_verify_in_now : forall h n s, eip_verify_in fixes_now h n s <> VPanic.
 Proof.
@@ -151,3 +155,208 @@ Example short_sig_bid_refused_now : verify_bid_in fixes_now short_sig_bid = VErr
 Proof. vm_compute. reflexivity. Qed.
 Example nil_bid_preconf_refused_now : verify_preconf_in fixes_now nil_bid_preconf = VErr.
 Proof. vm_compute. reflexivity. Qed.
+
+(* ================================================================================================== *)
+(* The Panic outcomes of the subsystem models.  Signer / Eip712 names are imported; the other models
+   are used with qualified names (they reuse the field names).                                        *)
+(* ================================================================================================== *)
+From MevVerif Require Import gen.Generated model.Eip712 model.Signer.
+From MevVerif Require model.PreconfBidder model.BidderApi.
+From MevVerif Require proofs.PreconfBidder_proofs proofs.BidderApi_proofs.
+
+(* the crypto library does not panic by itself (go-ethereum's SigToPub returns errors) *)
+Definition recover_total (cr : crypto) : Prop := forall h s, recover cr h s <> Panic.
+(* the node's own key signer answers with an error or with a 65-byte signature *)
+Definition sign_wellformed (cr : crypto) : Prop :=
+  forall h, match sign cr h with Ok s => length s = 65%nat | Err _ => True | Panic => False end.
+
+Lemma eip_verify_core_no_panic cr h sig :
+  recover_total cr -> length sig = 65%nat -> eip_verify_core cr h sig <> Panic.
+Proof.
+  intros NP L. unfold eip_verify_core.
+  destruct (nth_error sig 64) as [v|] eqn:E.
+  - pose proof (NP h (set64 sig (v_to01 v))) as R.
+    destruct (recover cr h (set64 sig (v_to01 v))); [|discriminate|contradiction].
+    destruct (verify_rs cr a h _); discriminate.
+  - apply nth_error_None in E. lia.
+Qed.
+
+Lemma eip_verify_no_panic' cr h e sig : recover_total cr -> eip_verify cr h e sig <> Panic.
+Proof.
+  intros NP. unfold eip_verify.
+  destruct (negb (bytes_eqb h e)); [discriminate|].
+  destruct (Nat.eqb (length sig) 65) eqn:L; cbn [negb]; [|discriminate].
+  apply Nat.eqb_eq in L. apply eip_verify_core_no_panic; assumption.
+Qed.
+
+Lemma bid_hash_no_panic K b : bid_hash K b <> Panic.
+Proof.
+  unfold bid_hash. destruct (parse_amount (b_amt b)); [|discriminate].
+  destruct (amount_out_of_range z); discriminate.
+Qed.
+
+Theorem signer_verify_bid_no_panic K cr b : recover_total cr -> verify_bid K cr b <> Panic.
+Proof.
+  intros NP. unfold verify_bid, verify_bid_with.
+  destruct (b_dig b); [|discriminate]. destruct (b_sig b); [|discriminate].
+  pose proof (bid_hash_no_panic K b) as H.
+  destruct (bid_hash K b); [|discriminate|contradiction].
+  apply eip_verify_no_panic', NP.
+Qed.
+
+Theorem signer_verify_preconf_no_panic K cr c : recover_total cr -> verify_preconf K cr c <> Panic.
+Proof.
+  intros NP. unfold verify_preconf.
+  destruct (c_bid c) as [b|] eqn:Hb; [|discriminate].
+  destruct (c_dig c); [|discriminate]. destruct (c_sig c); [|discriminate].
+  pose proof (signer_verify_bid_no_panic K cr b NP) as Hp.
+  destruct (verify_bid K cr b); [|discriminate|contradiction].
+  unfold commitment_hash. rewrite Hb.
+  destruct (parse_amount (b_amt b)); [|discriminate].
+  destruct (amount_out_of_range z); [discriminate|].
+  apply eip_verify_no_panic', NP.
+Qed.
+
+Lemma sign_normalised_no_panic cr h : sign_wellformed cr -> sign_normalised cr h <> Panic.
+Proof.
+  intros W. unfold sign_normalised. pose proof (W h) as Wh.
+  destruct (sign cr h) as [s| |]; [|discriminate|contradiction].
+  destruct (nth_error s 64) eqn:E; [discriminate|].
+  apply nth_error_None in E. lia.
+Qed.
+
+(* ConstructPreConfirmation on the bid the handler decoded (never a nil pointer) *)
+Theorem signer_construct_preconf_no_panic K cr b :
+  recover_total cr -> sign_wellformed cr -> construct_preconf K cr (Some b) <> Panic.
+Proof.
+  intros NP W. unfold construct_preconf.
+  pose proof (signer_verify_bid_no_panic K cr b NP) as Hp.
+  destruct (verify_bid K cr b) eqn:V; [|discriminate|contradiction].
+  unfold commitment_hash. cbn [c_bid].
+  destruct (parse_amount (b_amt b)); [|discriminate].
+  destruct (amount_out_of_range z); [discriminate|].
+  pose proof (sign_normalised_no_panic cr (commitment_hash_tail K b z) W) as S.
+  destruct (sign_normalised cr (commitment_hash_tail K b z)); [discriminate|discriminate|contradiction].
+Qed.
+
+(* a verified bid has an amount that parses (big.Int.SetString dialect) and is in range: the bidAmt
+   that handleBid parses again after VerifyBid is never nil, so StoreCommitment's bid.Int64() cannot
+   dereference nil (the one Panic outcome of model/PreconfProvider.v, whose gate is an oracle there) *)
+Lemma verified_amount_parses K cr b a :
+  verify_bid K cr b = Ok a -> exists z, parse_amount (b_amt b) = Some z /\ amount_out_of_range z = false.
+Proof.
+  unfold verify_bid, verify_bid_with.
+  destruct (b_dig b); [|discriminate]. destruct (b_sig b); [|discriminate].
+  unfold bid_hash. destruct (parse_amount (b_amt b)) as [z|]; [|discriminate].
+  destruct (amount_out_of_range z) eqn:R; [discriminate|]. intros _. exists z. split; [reflexivity|exact R].
+Qed.
+
+(* ---- the snapshot: concrete crashing messages (the crypto oracle is never reached) ------------------ *)
+Definition k0 : bytes -> bytes := fun _ => [].
+Definition cr0 : crypto :=
+  {| recover := fun _ _ => Err 0; verify_rs := fun _ _ _ => false; addr_of := fun p => p; sign := fun _ => Err 0 |}.
+Definition short_sig_message : bid :=
+  {| b_tx := bos "tx"; b_amt := bos "1"; b_bn := 1%Z; b_ds := 0%Z; b_de := 0%Z;
+     b_dig := Some []; b_sig := Some [1; 2; 3] |}.
+Definition nil_bid_message : preconf :=
+  {| c_bid := None; c_dig := Some [1]; c_sig := Some [2]; c_prov := [] |}.
+
+Lemma cr0_total : recover_total cr0.
+Proof. intros h s. discriminate. Qed.
+
+Lemma signer_verify_bid_v0_refuted :
+  exists K cr b, recover_total cr /\ verify_bid_v0 K cr b = Panic /\ verify_bid K cr b = Err E_SIG.
+Proof. exists k0, cr0, short_sig_message. split; [exact cr0_total|]. split; vm_compute; reflexivity. Qed.
+
+Lemma signer_verify_preconf_v0_refuted :
+  exists K cr c, recover_total cr /\ verify_preconf_v0 K cr c = Panic /\ verify_preconf K cr c = Err E_MISSING.
+Proof. exists k0, cr0, nil_bid_message. split; [exact cr0_total|]. split; vm_compute; reflexivity. Qed.
+
+(* ---- SendBid's reply path with the real verifier ------------------------------------------------------ *)
+(* decoded bytes fields: empty and absent are the same value (nil) *)
+Definition onil (b : bytes) : option bytes := match b with [] => None | _ => Some b end.
+Definition conv_bid (b : PreconfBidder.bid) : bid :=
+  {| b_tx := PreconfBidder.b_tx b; b_amt := PreconfBidder.b_amt b; b_bn := PreconfBidder.b_bn b;
+     b_ds := PreconfBidder.b_ds b; b_de := PreconfBidder.b_de b;
+     b_dig := onil (PreconfBidder.b_dig b); b_sig := onil (PreconfBidder.b_sig b) |}.
+Definition conv_commitment (c : PreconfBidder.commitment) : preconf :=
+  {| c_bid := option_map conv_bid (PreconfBidder.c_bid c);
+     c_dig := onil (PreconfBidder.c_dig c); c_sig := onil (PreconfBidder.c_sig c);
+     c_prov := PreconfBidder.c_prov c |}.
+
+(* the signer oracle of the SendBid model instantiated with the Signer model *)
+Definition real_verify (K : bytes -> bytes) (cr : crypto) (o : PreconfBidder.oracles) : Prop :=
+  forall c, PreconfBidder.verify o c = verify_preconf K cr (conv_commitment c).
+
+Theorem send_bid_replies_no_panic K cr o a view D :
+  recover_total cr -> real_verify K cr o -> PreconfBidder.construct o a <> Panic ->
+  PreconfBidder.send_bid o a view D <> PreconfBidder.SPanic.
+Proof.
+  intros NP RV C. apply PreconfBidder_proofs.no_crash; [exact C|].
+  intros c. rewrite RV. apply signer_verify_preconf_no_panic, NP.
+Qed.
+
+(* ---- the bidder API loop on what SendBid surfaces ------------------------------------------------------- *)
+Definition api_bid (b : PreconfBidder.bid) : BidderApi.pbid :=
+  {| BidderApi.pb_tx := PreconfBidder.b_tx b; BidderApi.pb_amount := PreconfBidder.b_amt b;
+     BidderApi.pb_bn := PreconfBidder.b_bn b; BidderApi.pb_ds := PreconfBidder.b_ds b;
+     BidderApi.pb_de := PreconfBidder.b_de b;
+     BidderApi.pb_digest := PreconfBidder.b_dig b; BidderApi.pb_sig := PreconfBidder.b_sig b |}.
+Definition api_commitment (c : PreconfBidder.commitment) : option BidderApi.preconf :=
+  Some {| BidderApi.pc_bid := option_map api_bid (PreconfBidder.c_bid c);
+          BidderApi.pc_digest := PreconfBidder.c_dig c; BidderApi.pc_sig := PreconfBidder.c_sig c;
+          BidderApi.pc_prov := PreconfBidder.c_prov c |}.
+(* what the range loop of the API receives from the channel, in any order of arrival *)
+Definition api_channel (r : PreconfBidder.run) : list (option BidderApi.preconf) :=
+  map (fun tc => api_commitment (snd tc)) (PreconfBidder.r_delivered r).
+
+Theorem bidder_api_no_panic o a view D r fail_at :
+  PreconfBidder.send_bid o a view D = PreconfBidder.SRun r ->
+  fst (BidderApi.stream_loop (api_channel r) fail_at) <> BidderApi.RPanic.
+Proof.
+  intros H. apply BidderApi_proofs.stream_loop_no_panic.
+  destruct (PreconfBidder_proofs.surface o a view D r H) as (_ & Hd & _).
+  unfold api_channel. apply Forall_forall. intros x Hx. apply in_map_iff in Hx.
+  destruct Hx as ((t, c) & <- & Hin). destruct (Hd t c Hin) as (p & c0 & rest & addr & _ & _ & _ & _ & _ & _ & _ & _ & Hb).
+  unfold BidderApi_proofs.complete, api_commitment. cbn [snd]. rewrite Hb. cbn [option_map].
+  eexists. eexists. split; reflexivity.
+Qed.
+
+(* the premise is needed: the loop does panic on an element without a bid (not peer-reachable by
+   the theorem above) *)
+Example api_loop_panics_without_bid :
+  fst (BidderApi.stream_loop
+         [Some {| BidderApi.pc_bid := None; BidderApi.pc_digest := []; BidderApi.pc_sig := []; BidderApi.pc_prov := [] |}]
+         None) = BidderApi.RPanic.
+Proof. reflexivity. Qed.
+
+(* non-vacuity: an oracle record satisfying the premises, and a run that delivers something *)
+Example cr0_sign_wellformed : sign_wellformed cr0.
+Proof. intros h. exact I. Qed.
+
+Definition ex_bid : PreconfBidder.bid := PreconfBidder.mkBid [1] [49] 1%Z 0%Z 0%Z [2] [3] [].
+Definition ex_args : PreconfBidder.call_args := PreconfBidder.mkArgs [1] [49] 1%Z 0%Z 0%Z.
+Definition ex_oracles : PreconfBidder.oracles := PreconfBidder.mkOracles (fun _ => Ok ex_bid) (fun _ => Ok [9]).
+Definition ex_view : list PreconfBidder.peer :=
+  [PreconfBidder.mkPeer [7] PreconfBidder.TProvider
+     (PreconfBidder.RFrames (PreconfBidder.mkCommitment (Some ex_bid) [4] [5] [] []) []) 1;
+   PreconfBidder.mkPeer [8] PreconfBidder.TProvider
+     (PreconfBidder.RFrames (PreconfBidder.mkCommitment None [4] [5] [] []) []) 2].
+(* one honest and one bid-less reply: one commitment surfaces, and the API loop maps it *)
+Example bidder_api_nonvacuous :
+  exists r, PreconfBidder.send_bid ex_oracles ex_args ex_view 10 = PreconfBidder.SRun r /\
+            length (PreconfBidder.r_delivered r) = 1%nat /\
+            fst (BidderApi.stream_loop (api_channel r) None) = BidderApi.RNil.
+Proof. eexists. split; [vm_compute; reflexivity|]. split; vm_compute; reflexivity. Qed.
+
+(* the real verifier as the oracle of SendBid: every premise of send_bid_replies_no_panic holds,
+   and the reply without a bid is refused, not a crash *)
+Definition ex_real_oracles : PreconfBidder.oracles :=
+  PreconfBidder.mkOracles (fun _ => Ok ex_bid) (fun c => verify_preconf k0 cr0 (conv_commitment c)).
+Example send_bid_replies_nonvacuous :
+  recover_total cr0 /\ real_verify k0 cr0 ex_real_oracles /\
+  exists r, PreconfBidder.send_bid ex_real_oracles ex_args ex_view 10 = PreconfBidder.SRun r.
+Proof.
+  split; [exact cr0_total|]. split; [intros c; reflexivity|].
+  eexists. vm_compute. reflexivity.
+Qed.
